@@ -341,7 +341,13 @@ class SigmaCollection:
         # resolving references (we'll do a single resolution pass after merge).
         merged = cls.merge(sigma_collections, resolve_references=False)
         if resolve_references:
-            merged.resolve_rule_references()
+            try:
+                merged.resolve_rule_references()
+            except SigmaRuleNotFoundError as e:
+                if collect_errors:  # as in from_dicts: a dangling rule reference is collected
+                    merged.errors.append(e)
+                else:
+                    raise
         return merged
 
     @classmethod
